@@ -916,6 +916,36 @@ func init() {
 					ascii = ex
 				}
 			}
+			// the host hooks: the one that runs after parsing is handed the ToASCII result (its answer replaces the
+			// domain: handed anything earlier, the normalisation is lost), the one that runs before is handed the host
+			// text as it came in
+			for _, b := range ph.Blocks {
+				for _, ins := range b.Instrs {
+					call, ok := ins.(*ssa.Call)
+					if !ok || call.Common().IsInvoke() || call.Common().StaticCallee() != nil {
+						continue
+					}
+					hook := optLoad(call.Common().Value)
+					if hook != "postParseHostFunc" && hook != "preParseHostFunc" {
+						continue
+					}
+					var sarg ssa.Value
+					for _, a := range call.Common().Args {
+						if isStringType(a.Type()) {
+							sarg = a
+						}
+					}
+					if sarg == nil {
+						continue
+					}
+					switch hook {
+					case "postParseHostFunc":
+						s.Check(ascii != nil && sarg == ascii, "hostpipe/post-hook-input", c.P.Pos(call.Pos()), "the post-parse host hook is handed the ToASCII result", "the post-parse host hook is not handed the ToASCII result: its answer replaces the domain, so what ToASCII did (lower case, IDNA mapping) is lost")
+					case "preParseHostFunc":
+						s.Check(hostParam != nil && sarg == ssa.Value(hostParam), "hostpipe/pre-hook-input", c.P.Pos(call.Pos()), "the pre-parse host hook is handed the host text as it came in", "the pre-parse host hook is not handed the host parameter")
+					}
+				}
+			}
 			scanOK := rangeIns != nil && testCall != nil && ascii != nil && rangeIns.X == ascii
 			if scanOK {
 				// tested value is the ranged rune: Extract 2 of Next(range)
